@@ -176,7 +176,11 @@ static void roundtrip_case(const mon_args_t *a, long idx) {
       if (strcmp(cm, comment)) io_fail("mzd_to_png", "roundtrip", "wrong-comment", "comment chunk differs from the comment passed in");
       rm_free(D);
     }
+    /* fresh blocks handed to the library are not zero (as after real use of the heap): a reader that relies on a zero scanline
+     * buffer, or leaves bits of the result unwritten, shows up in the entries or in the padding */
+    AW_poison = 2 + (int)(idx % 3); /* 0xFF, 0xA5, PRNG */
     mzd_t *B = mzd_from_png(fn, 0);
+    AW_poison = 0;
     if (!B)
       io_fail("mzd_from_png", "roundtrip", "wrong-result", "mzd_from_png returned NULL for a file written by mzd_to_png");
     else {
